@@ -1,7 +1,7 @@
 (* C03 whole-image stage: driver of the extracted coq/Image models.
      W <toymode> <bs> <mtime> <comp> <devblk> <exportable> <no_xattr> <hex opts> <hex data> <frags> <xattr> <N> <nodes>
          (model input printed by props/C03/h_image.c)         -> <rc> <19 super fields> <hex file> # r<0|1> f<0|1>
-     C <toymode> <devblk> <hex file> <N> <nodes>              -> extracted valid_image + read_image_tree (toy
+     C <toymode> <devblk> <tree 0|1> <hex file> <N> <nodes>   -> extracted valid_image + read_image_tree (toy
          decompressor) on bytes the C code produced, compared with spec_tree of the dumped tree:
          OK <nodes> | INVALID <clause> | NOREAD | MISMATCH <where>
      R <path> <devblk> <tree 0|1>                             -> the extracted reader / validator on a real image file
@@ -158,12 +158,14 @@ let rec first_diff path a b =
 let cmd_c () =
   let mode = nextn () in
   let devblk = nextn () in
+  let want_tree = next () <> "0" in
   let file = unhex (next ()) in
   let t = parse_tree () in
   let un = img_uncompress mode in
   let n = List.length t in
   if not (valid_image un devblk file) then
     Printf.printf "INVALID %s\n" (string_of_n (first_failure un devblk file))
+  else if not want_tree then print_string "OK valid\n"
   else
     match read_image_tree un file, spec_tree t (nat_of_int n) (n_of_int n) with
     | Some x, Some y ->
